@@ -13,9 +13,9 @@ PROFILE = dict(
     sizes=[1, 2, 3, 3, 4, 5, 6, 6, 13],
     lengths=[0, 0, 2, 4, 6],
     cwds=["root"],
-    weights=dict(run=2, start=2, finish=2, sched_cancel=0.4, purge=0.3, acct_flush=0.3, modify_source=0.3,
+    weights=dict(run=2, faulted=0.4, start=2, finish=2, sched_cancel=0.4, purge=0.3, acct_flush=0.3, modify_source=0.3,
                  delete_output=0.3, edit_spec=0.3),
-    p_job_ok=0.6, p_hashing=0.5,
+    p_job_ok=0.6, p_hashing=0.5, p_kill_streak=0.3,
 )
 
 
